@@ -223,17 +223,21 @@ func scenarioC13(r *Run) {
 		var req commands.Request
 		kind := ""
 		seq := uint16(c.Pick(65536, "spoof-seq"))
-		if c.Chance(1, 2, "spoof-expected-seq") {
-			seq = 0 // plausible next values are small in short runs
-			seq = uint16(c.Pick(8, "spoof-small-seq"))
+		ack := uint16(c.Pick(65536, "spoof-ack"))
+		if c.Chance(2, 3, "spoof-expected-seq") {
+			// worst case: exactly the sequence number the server expects next from the victim, and an
+			// acknowledgement of everything the server has sent (which would discard unread data)
+			nextOut, nextIn := v.dc.SimNextSeq()
+			seq = nextOut + uint16(c.Pick(2, "spoof-seq-delta"))
+			ack = nextIn + uint16(c.Pick(3, "spoof-ack-delta")) - 1
 		}
 		junk := make([]byte, 1+c.Pick(40, "junk-len"))
 		prfFill(0xbadbad, 0, junk)
 		switch c.Pick(5, "spoof-kind") {
 		case 0:
-			req, kind = &commands.PacketRequest{UserId: v.uid, LastAckedSeqNo: uint16(c.Pick(65536, "spoof-ack")), Packet: &dnsutil.Packet{SeqNo: seq, Data: junk}}, "packet-with-data"
+			req, kind = &commands.PacketRequest{UserId: v.uid, LastAckedSeqNo: ack, Packet: &dnsutil.Packet{SeqNo: seq, Data: junk}}, "packet-with-data"
 		case 1:
-			req, kind = &commands.PacketRequest{UserId: v.uid, LastAckedSeqNo: uint16(c.Pick(65536, "spoof-ack"))}, "poll-with-ack"
+			req, kind = &commands.PacketRequest{UserId: v.uid, LastAckedSeqNo: ack}, "poll-with-ack"
 		case 2:
 			t := true
 			req, kind = &commands.SetOptionsRequest{UserId: v.uid, Closed: &t}, "close"
